@@ -1,7 +1,29 @@
 //! C17: contour tracing returns exactly the boundary of the sampled shape.
+//!
+//! Every bitmap is pushed through several implementations of the public trait `SampledContour` that must all give the
+//! same edge cells and the same loops:
+//!   bool    `BoolSampledContour`
+//!   u8      `U8SampledContour` (0 = outside, any other value = inside)
+//!   frac    `FracContour` (defined here): rows of FRACTIONAL ranges that sample to the same bitmap, with pieces that
+//!           touch after rounding, pieces that round to nothing, negative starts, many ranges per row
+//!   scaled  the library's `ScaledContour` around a `BoolSampledContour` (its intercepts are fractional)
+//! and the rounding stage itself (`rounded_intercepts_on_line`, which calls `merge_overlapping_intercepts`) is observed
+//! directly (`round`).
 use crate::util::*;
 use flo_curves::bezier::vectorize::*;
+use smallvec::SmallVec;
 use std::collections::HashMap;
+use std::ops::Range;
+use std::panic::{catch_unwind, AssertUnwindSafe};
+
+/// A contour given directly by its (fractional) intercepts on each line: sample x of line y is inside iff
+/// `start <= x < end` for one of the ranges of the line (the documented contract: ascending, not overlapping)
+pub struct FracContour(pub ContourSize, pub Vec<Vec<Range<f64>>>);
+
+impl SampledContour for FracContour {
+    fn contour_size(&self) -> ContourSize { self.0 }
+    fn intercepts_on_line(&self, y: f64) -> SmallVec<[Range<f64>; 4]> { self.1[y.floor() as usize].iter().cloned().collect() }
+}
 
 fn sample(bm: &[bool], w: usize, h: usize, x: i64, y: i64) -> bool {
     if x < 0 || y < 0 || x >= w as i64 || y >= h as i64 { false } else { bm[(y as usize) * w + x as usize] }
@@ -19,30 +41,165 @@ fn edge_id(e: ContourEdge, size: ContourSize) -> usize {
     (((size.0 + 1) * p.1 + p.0) << 1) | (if e.is_horizontal() { 1 } else { 0 })
 }
 
-fn bits(bm: &[bool]) -> String { bm.iter().map(|b| if *b { '1' } else { '0' }).collect() }
+fn bits(bm: &[bool]) -> String { if bm.is_empty() { "-".to_string() } else { bm.iter().map(|b| if *b { '1' } else { '0' }).collect() } }
 
-fn line(bm: &[bool], w: usize, h: usize) -> Result<String, String> {
-    let contour = BoolSampledContour(ContourSize(w, h), bm.to_vec());
-    let size = ContourSize(w, h);
-    let r = std::panic::catch_unwind(|| {
-        let cells: Vec<(ContourPosition, ContourCell)> = contour.edge_cell_iterator().collect();
-        let loops = trace_contours_from_samples(&contour);
+type Cells = Vec<(usize, usize, usize)>;
+
+/// the observation points of the property on one contour: `edge_cell_iterator` and `trace_contours_from_samples`
+fn scan_trace<C: SampledContour>(contour: &C) -> Result<(Cells, Vec<Vec<ContourEdge>>), String> {
+    let r = catch_unwind(AssertUnwindSafe(|| {
+        let cells: Cells = contour.edge_cell_iterator().map(|(p, c)| (p.0, p.1, cell_value(c))).collect();
+        let loops = trace_contours_from_samples(contour);
         (cells, loops)
-    });
-    let (cells, loops) = match r { Ok(v) => v, Err(_) => return Err("panic".into()) };
-    let mut s = format!("C17 bitmap D #{} #{} {} | #{}", w, h, if bm.is_empty() { "-".to_string() } else { bits(bm) }, cells.len());
-    for (p, c) in &cells { s += &format!(" #{} #{} #{}", p.0, p.1, cell_value(*c)); }
+    }));
+    r.map_err(|_| "panic".to_string())
+}
+
+fn outputs(cells: &Cells, loops: &[Vec<ContourEdge>], size: ContourSize) -> String {
+    let mut s = format!("#{}", cells.len());
+    for (x, y, c) in cells { s += &format!(" #{} #{} #{}", x, y, c); }
     s += &format!(" L #{}", loops.len());
-    for l in &loops {
+    for l in loops {
         s += &format!(" #{}", l.len());
         for e in l { s += &format!(" #{}", edge_id(*e, size)); }
     }
-    Ok(s)
+    s
 }
 
-/// the property on the real code against brute force
-pub fn check(bm: &[bool], w: usize, h: usize) -> Option<(String, String)> {
-    let contour = BoolSampledContour(ContourSize(w, h), bm.to_vec());
+fn rows_text(rows: &[Vec<Range<f64>>]) -> String {
+    let mut s = String::new();
+    for r in rows {
+        s += &format!(" #{}", r.len());
+        for iv in r { s += &format!(" {} {}", hx(iv.start), hx(iv.end)); }
+    }
+    s
+}
+
+// ------------------------------------------------------------------------------------------------ the contours of one bitmap
+
+const U8_VALUES: [(u8, char); 5] = [(1, '1'), (2, '2'), (128, '8'), (255, 'f'), (7, '7')];
+
+/// u8 samples for a bitmap: 0 outside, inside samples take values from a small set of non-zero bytes
+fn u8_samples(bm: &[bool], variant: u64) -> (Vec<u8>, String) {
+    let mut v = vec![];
+    let mut s = String::new();
+    for (i, b) in bm.iter().enumerate() {
+        if *b {
+            let (val, ch) = if variant == 0 { U8_VALUES[0] } else { U8_VALUES[((i as u64).wrapping_mul(2654435761).wrapping_add(variant) % 5) as usize] };
+            v.push(val); s.push(ch);
+        } else { v.push(0); s.push('0'); }
+    }
+    if bm.is_empty() { s = "-".into(); }
+    (v, s)
+}
+
+/// a point of the half-open pixel gap (j-1, j]: every such point has ceiling j
+fn in_gap(j: i64, f: f64) -> f64 { (j - 1) as f64 + f }
+
+/// `n` ascending offsets in (0, 1]: eighths (`dy`) or reals not closer than 2^-20 to 0
+fn fracs(rng: &mut Rng, n: usize, dy: bool) -> Vec<f64> {
+    let mut v: Vec<f64> = (0..n).map(|_| if dy { (1 + rng.i(8)) as f64 / 8.0 } else { rng.r(1.0 / 1048576.0, 1.0) }).collect();
+    v.sort_by(|a, b| a.partial_cmp(b).unwrap());
+    v
+}
+
+#[derive(Clone, Copy)]
+struct Style { split: f64, empties: f64, dyadic: bool, neg: bool }
+
+/// Fractional ranges (ascending, not overlapping) whose samples are exactly the inside runs of `row`.
+/// A run [a,b) becomes one range or several: a split at sample k ends one piece and starts the next inside the pixel gap
+/// (k-1, k], so both round to k and the rounded pieces touch; `empties` adds pieces with both ends in one gap (they
+/// contain no sample and round to an empty range) between runs, before the first, after the last and inside splits.
+fn frac_row(rng: &mut Rng, row: &[bool], st: Style) -> Vec<Range<f64>> {
+    let w = row.len() as i64;
+    let mut runs: Vec<(i64, i64)> = vec![];
+    let mut x = 0;
+    while x < w {
+        if row[x as usize] { let a = x; while x < w && row[x as usize] { x += 1; } runs.push((a, x)); } else { x += 1; }
+    }
+    let mut out: Vec<Range<f64>> = vec![];
+    // empty pieces in the pixel gaps j of lo..=hi (no sample position lies strictly inside a gap)
+    let empties = |rng: &mut Rng, out: &mut Vec<Range<f64>>, lo: i64, hi: i64| {
+        if lo > hi { return; }
+        let mut j = lo;
+        while j <= hi {
+            if rng.f() < st.empties {
+                let f = fracs(rng, 2, st.dyadic);
+                out.push(in_gap(j, f[0])..in_gap(j, f[1]));
+                if rng.f() < 0.3 { continue; }      // another one in the same gap? no: keep ascending, move on
+            }
+            j += 1 + rng.i(3) as i64;
+        }
+    };
+    let mut prev_end = 0i64;
+    for (a, b) in runs.iter().copied() {
+        empties(rng, &mut out, prev_end + 1, a - 1);
+        let mut start = if a == 0 && !(st.neg && rng.i(4) == 0) { 0.0 } else { in_gap(a, fracs(rng, 1, st.dyadic)[0]) };
+        for k in (a + 1)..b {
+            if rng.f() < st.split {
+                let with_empty = rng.f() < st.empties;
+                let f = fracs(rng, if with_empty { 4 } else { 2 }, st.dyadic);
+                out.push(start..in_gap(k, f[0]));
+                if with_empty { out.push(in_gap(k, f[1])..in_gap(k, f[2])); }
+                start = in_gap(k, f[f.len() - 1]);
+            }
+        }
+        out.push(start..in_gap(b, fracs(rng, 1, st.dyadic)[0]));
+        prev_end = b;
+    }
+    empties(rng, &mut out, prev_end + 1, w);
+    out
+}
+
+/// every inside sample x becomes its own range [x - 1/2, x + 1/2): after rounding all pieces of a run touch
+fn frac_row_max_split(row: &[bool]) -> Vec<Range<f64>> {
+    row.iter().enumerate().filter(|(_, b)| **b).map(|(x, _)| (x as f64 - 0.5)..(x as f64 + 0.5)).collect()
+}
+
+fn frac_rows(rng: &mut Rng, bm: &[bool], w: usize, h: usize, st: Option<Style>) -> Vec<Vec<Range<f64>>> {
+    (0..h).map(|y| { let row = &bm[y * w..(y + 1) * w]; match st { None => frac_row_max_split(row), Some(st) => frac_row(rng, row, st) } }).collect()
+}
+
+fn random_style(rng: &mut Rng) -> Style {
+    Style { split: [0.0, 0.3, 0.7, 1.0][rng.i(4) as usize], empties: [0.0, 0.2, 0.6][rng.i(3) as usize], dyadic: rng.b(), neg: rng.b() }
+}
+
+/// the bitmap a list of rows samples to (the contour's meaning; independent of any rounding)
+fn sample_rows(rows: &[Vec<Range<f64>>], w: usize) -> Vec<bool> {
+    let mut bm = vec![];
+    for r in rows { for x in 0..w { let xf = x as f64; bm.push(r.iter().any(|iv| iv.start <= xf && xf < iv.end)); } }
+    bm
+}
+
+/// what the rounding stage does to a row, for the input-class counters only
+fn classify_row(row: &[Range<f64>], pre: &str, stats: &mut Stats) {
+    let rounded: Vec<(usize, usize)> = row.iter().map(|iv| (iv.start.ceil() as usize, iv.end.ceil() as usize)).collect();
+    let kept: Vec<(usize, usize)> = rounded.iter().copied().filter(|r| r.0 != r.1).collect();
+    if kept.len() < rounded.len() { stats.count(&format!("{}.rows_with_empty_piece", pre)); }
+    if row.iter().any(|iv| iv.start < 0.0) { stats.count(&format!("{}.rows_with_negative_start", pre)); }
+    if row.iter().any(|iv| iv.start.fract() != 0.0 || iv.end.fract() != 0.0) { stats.count(&format!("{}.rows_fractional", pre)); }
+    let touch: Vec<usize> = (0..kept.len().saturating_sub(1)).filter(|i| kept[*i].1 == kept[*i + 1].0).collect();
+    if !touch.is_empty() { stats.count(&format!("{}.rows_touching", pre)); }
+    if kept.len() >= 4 && touch.iter().any(|i| kept.len() - (i + 2) >= 2) { stats.count(&format!("{}.rows_ge4_ranges_touching_pair_then_2_more", pre)); }
+    if kept.len() >= 4 { stats.count(&format!("{}.rows_ge4_ranges", pre)); }
+}
+
+/// a library wrapper with fractional intercepts: `ScaledContour` around the bitmap; returns its rows and size
+fn scaled_of(rng: &mut Rng, bm: &[bool], w: usize, h: usize) -> Option<(ScaledContour<BoolSampledContour>, f64, (f64, f64))> {
+    if w == 0 || h == 0 { return None; }
+    let scale = [0.5, 0.5, 0.25, 0.75, 1.0, 1.5, 2.0][rng.i(if w.max(h) > 32 { 5 } else { 7 }) as usize];   // the result stays within 64x64
+    let off = ([0.0, 0.0, 0.25, 0.5][rng.i(4) as usize], [0.0, 0.0, 0.25, 0.5][rng.i(4) as usize]);
+    Some((ScaledContour::from_contour(BoolSampledContour(ContourSize(w, h), bm.to_vec()), scale, off), scale, off))
+}
+
+fn rows_of<C: SampledContour>(c: &C) -> Vec<Vec<Range<f64>>> {
+    (0..c.contour_size().height()).map(|y| c.intercepts_on_line(y as f64).into_iter().collect()).collect()
+}
+
+// ------------------------------------------------------------------------------------------------ the property on the real code
+
+/// the property on the real code against brute force, for any contour that samples to the bitmap `bm`
+pub fn check<C: SampledContour>(contour: &C, bm: &[bool], w: usize, h: usize) -> Option<(String, String)> {
     let mut want = vec![];
     for y in 0..=(h as i64) { for x in 0..=(w as i64) {
         let (tl, tr, bl, br) = (sample(bm, w, h, x - 1, y - 1), sample(bm, w, h, x, y - 1), sample(bm, w, h, x - 1, y), sample(bm, w, h, x, y));
@@ -51,7 +208,7 @@ pub fn check(bm: &[bool], w: usize, h: usize) -> Option<(String, String)> {
     } }
     let got: Vec<(usize, usize, usize)> = contour.edge_cell_iterator().map(|(p, c)| (p.0, p.1, cell_value(c))).collect();
     if got != want { return Some(("scan_cells".into(), format!("got {:?} want {:?}", got, want))); }
-    let loops = trace_contours_from_samples(&contour);
+    let loops = trace_contours_from_samples(contour);
     let size = ContourSize(w, h);
     let mut used: HashMap<ContourEdge, usize> = HashMap::new();
     for l in &loops {
@@ -79,8 +236,28 @@ pub fn check(bm: &[bool], w: usize, h: usize) -> Option<(String, String)> {
     None
 }
 
+/// run-length encoding of one row of samples: the maximal runs of inside samples
+fn rle(row: &[bool]) -> Vec<(usize, usize)> {
+    let mut v = vec![];
+    let mut x = 0;
+    while x < row.len() { if row[x] { let a = x; while x < row.len() && row[x] { x += 1; } v.push((a, x)); } else { x += 1; } }
+    v
+}
+
+/// the rounding stage on the real code: `rounded_intercepts_on_line` must return exactly the maximal runs of inside samples
+fn check_rounding(c: &FracContour, bm: &[bool], w: usize, h: usize) -> Option<(String, String)> {
+    for y in 0..h {
+        let got: Vec<(usize, usize)> = c.rounded_intercepts_on_line(y as f64).into_iter().map(|r| (r.start, r.end)).collect();
+        let want = rle(&bm[y * w..(y + 1) * w]);
+        if got != want { return Some(("rounded_runs".into(), format!("line {} intercepts {:?} rounded {:?} want {:?}", y, c.1[y], got, want))); }
+    }
+    None
+}
+
+fn rows_desc(rows: &[Vec<Range<f64>>]) -> String { format!("{:?}", rows).replace(' ', "") }
+
 fn sizes(thorough: bool) -> Vec<(usize, usize)> {
-    let mut v = vec![(0, 0), (1, 0), (0, 1), (1, 1), (2, 1), (1, 2), (2, 2), (3, 1), (1, 3), (3, 2), (2, 3), (3, 3), (4, 2), (2, 4), (4, 3), (3, 4)];
+    let mut v = vec![(0, 0), (1, 0), (0, 1), (1, 1), (2, 1), (1, 2), (2, 2), (3, 1), (1, 3), (3, 2), (2, 3), (3, 3), (4, 2), (2, 4), (4, 3), (3, 4), (5, 1), (6, 1)];
     if thorough { v.push((4, 4)); v.push((5, 3)); v.push((5, 4)); v.push((4, 5)); }
     v
 }
@@ -88,7 +265,7 @@ fn sizes(thorough: bool) -> Vec<(usize, usize)> {
 fn random_bitmap(rng: &mut Rng) -> (Vec<bool>, usize, usize, &'static str) {
     let w = 1 + rng.i(64) as usize;
     let h = 1 + rng.i(64) as usize;
-    let kind = rng.i(8);
+    let kind = rng.i(9);
     let mut bm = vec![false; w * h];
     let name = match kind {
         0 => { for b in bm.iter_mut() { *b = true; } "full" }
@@ -100,54 +277,213 @@ fn random_bitmap(rng: &mut Rng) -> (Vec<bool>, usize, usize, &'static str) {
             let (cx, cy, r) = (rng.r(0.0, w as f64), rng.r(0.0, h as f64), rng.r(1.0, 30.0));
             for y in 0..h { for x in 0..w { let d = ((x as f64 - cx).powi(2) + (y as f64 - cy).powi(2)).sqrt(); bm[y * w + x] = d < r && d > r * 0.4; } } "ring" }
         6 => { for y in 0..h { for x in 0..w { bm[y * w + x] = (x / 2 + y / 3) % 2 == 0; } } "blocks" }
+        7 => { // long runs with short gaps: many ranges per row once the runs are split
+            for y in 0..h { let mut x = 0; while x < w { let run = 1 + rng.i(9) as usize; for k in x..(x + run).min(w) { bm[y * w + k] = true; } x += run + 1 + rng.i(2) as usize; } } "long_runs" }
         _ => { let p = rng.f(); for y in 0..h { for x in 0..w { bm[y * w + x] = x > 0 && y > 0 && x + 1 < w && y + 1 < h && rng.f() < p; } } "noise_with_border" }
     };
     (bm, w, h, name)
+}
+
+// ------------------------------------------------------------------------------------------------ correspondence
+
+const K_U8: u32 = 1;
+const K_FRAC_MAX: u32 = 2;
+const K_FRAC: u32 = 4;
+const K_SCALED: u32 = 8;
+const K_ALL: u32 = 15;
+
+/// transcript lines for one bitmap: the bool contour always, the other kinds by the mask
+fn corr_bitmap(rng: &mut Rng, bm: &[bool], w: usize, h: usize, nontrivial: bool, stats: &mut Stats, round_lines: bool, kinds: u32) {
+    let size = ContourSize(w, h);
+    let emit = |kind: &str, head: String, r: Result<(Cells, Vec<Vec<ContourEdge>>), String>, size: ContourSize, stats: &mut Stats| {
+        match r {
+            Ok((cells, loops)) => { let l = format!("{} | {}", head, outputs(&cells, &loops, size)); stats.case(&l, nontrivial); println!("{}", l); }
+            Err(e) => { stats.fail("C17", &format!("{}.panic", kind), &format!("{} {}", head, e)); }
+        }
+        stats.count(&format!("kind.{}", kind));
+    };
+    // bool
+    let c = BoolSampledContour(size, bm.to_vec());
+    emit("bool", format!("C17 bitmap D #{} #{} {}", w, h, bits(bm)), scan_trace(&c), size, stats);
+    // u8 (value 1, or mixed non-zero values)
+    if kinds & K_U8 != 0 {
+        let (v, s) = u8_samples(bm, rng.i(2) * (1 + rng.i(1000)));
+        let c = U8SampledContour(size, v);
+        emit("u8", format!("C17 bitmap_u8 D #{} #{} {}", w, h, s), scan_trace(&c), size, stats);
+    }
+    // fractional intercepts, both variants
+    for st in [None, Some(random_style(rng))] {
+        if kinds & (if st.is_none() { K_FRAC_MAX } else { K_FRAC }) == 0 { continue; }
+        let rows = frac_rows(rng, bm, w, h, st);
+        for r in &rows { classify_row(r, "frac", stats); }
+        let c = FracContour(size, rows);
+        emit(if st.is_none() { "frac_max_split" } else { "frac" }, format!("C17 frac D #{} #{} {}{}", w, h, bits(bm), rows_text(&c.1)), scan_trace(&c), size, stats);
+        if round_lines { for y in 0..h { round_line(&c.1[y], "valid", stats); } }
+    }
+    // the library's scaled wrapper
+    if kinds & K_SCALED == 0 { return; }
+    if let Some((c, scale, off)) = scaled_of(rng, bm, w, h) {
+        let rows = rows_of(&c);
+        let ContourSize(sw, sh) = c.contour_size();
+        let sbm = sample_rows(&rows, sw);
+        for r in &rows { classify_row(r, "scaled", stats); }
+        emit("scaled", format!("C17 scaled D #{} #{} {}{}", sw, sh, bits(&sbm), rows_text(&rows)), scan_trace(&c), c.contour_size(), stats);
+        stats.count(&format!("scaled.scale_{}_offset_{}_{}", scale, off.0, off.1));
+    }
+}
+
+/// one line of the rounding stage: input ranges and what `rounded_intercepts_on_line` makes of them
+fn round_line(row: &[Range<f64>], class: &str, stats: &mut Stats) {
+    let c = FracContour(ContourSize(64, 1), vec![row.to_vec()]);
+    match catch_unwind(AssertUnwindSafe(|| c.rounded_intercepts_on_line(0.0))) {
+        Ok(out) => {
+            let mut l = format!("C17 round D{} | #{}", rows_text(&c.1), out.len());
+            for r in out.iter() { l += &format!(" #{} #{}", r.start, r.end); }
+            stats.case(&l, row.len() >= 2);
+            println!("{}", l);
+        }
+        Err(_) => stats.fail("C17", "round.panic", &rows_desc(&c.1)),
+    }
+    stats.count(&format!("round.{}", class));
+    if class == "valid" { classify_row(row, "round", stats); }
+}
+
+/// range lists that need not respect the contract (overlapping, nested, unsorted, inverted, negative): the model of the
+/// rounding stage is literal, so it has to agree with the implementation on these too
+fn unconstrained_row(rng: &mut Rng) -> Vec<Range<f64>> {
+    let n = rng.i(7) as usize;
+    let sorted = rng.b();
+    let mut v: Vec<Range<f64>> = (0..n).map(|_| { let a = rng.dyadic(-2, 12, 4); let b = if rng.i(5) == 0 { rng.dyadic(-2, 12, 4) } else { a + rng.dyadic(0, 4, 4) }; a..b }).collect();
+    if sorted { v.sort_by(|a, b| a.start.partial_cmp(&b.start).unwrap()); }
+    v
 }
 
 pub fn corr(seed: u64, n: u64) {
     let mut rng = Rng(seed ^ 0xC17);
     let mut stats = Stats::new();
     let thorough = n >= 100000;
+    std::panic::set_hook(Box::new(|_| {}));
     for (w, h) in sizes(thorough) {
         let nbits = w * h;
         let step: u64 = if nbits > 16 { 1 + (seed % 3) } else { 1 };   // 5x4: every 1st..3rd bitmap by seed, still > 300k
         let mut b: u64 = 0;
         while b < (1u64 << nbits) {
             let bm: Vec<bool> = (0..nbits).map(|i| (b >> i) & 1 == 1).collect();
-            match line(&bm, w, h) {
-                Ok(l) => { stats.case(&l, b != 0 && b + 1 != (1u64 << nbits)); println!("{}", l); }
-                Err(e) => { stats.fail("C17", "panic", &format!("{}x{} {} {}", w, h, bits(&bm), e)); }
-            }
+            // the largest sizes: every bitmap as a bool contour, every 32nd also in the other kinds
+            let kinds = if nbits <= 16 || (b / step) % 32 == seed % 32 { K_ALL } else { 0 };
+            corr_bitmap(&mut rng, &bm, w, h, b != 0 && b + 1 != (1u64 << nbits), &mut stats, h == 1, kinds);
             stats.count(&format!("exhaustive.{}x{}", w, h));
             b += step;
         }
     }
-    for _ in 0..(n / 100) {
+    for i in 0..(n / 100) {
         let (bm, w, h, name) = random_bitmap(&mut rng);
-        match line(&bm, w, h) {
-            Ok(l) => { stats.case(&l, name != "full" && name != "empty"); println!("{}", l); }
-            Err(e) => { stats.fail("C17", "panic", &format!("{}x{} {} {}", w, h, bits(&bm), e)); }
-        }
+        // large bitmaps: the bool contour and one of the other kinds in turn (the models are quadratic in the number of edges);
+        // thorough: on every second bitmap
+        let kinds = if thorough && i % 2 == 1 { 0 } else { 1 << ((if thorough { i / 2 } else { i }) % 4) };
+        corr_bitmap(&mut rng, &bm, w, h, name != "full" && name != "empty", &mut stats, true, kinds);
         stats.count(&format!("random.{}", name));
     }
+    // the rounding stage on its own: every row of width <= 8 in several disguises, then lists outside the contract
+    for w in 0..=8usize {
+        for b in 0u64..(1u64 << w) {
+            let row: Vec<bool> = (0..w).map(|i| (b >> i) & 1 == 1).collect();
+            round_line(&frac_row_max_split(&row), "valid", &mut stats);
+            for _ in 0..2 { let st = random_style(&mut rng); round_line(&frac_row(&mut rng, &row, st), "valid", &mut stats); }
+        }
+    }
+    for _ in 0..(n / 20) { round_line(&unconstrained_row(&mut rng), "outside_contract", &mut stats); }
     stats.print("C17", "corr");
+}
+
+// ------------------------------------------------------------------------------------------------ search
+
+/// canonical form of the loops (the hash map's iteration order decides start, direction and order of the loops)
+fn canon_loops(loops: &[Vec<ContourEdge>], size: ContourSize) -> Vec<Vec<usize>> {
+    let mut out: Vec<Vec<usize>> = loops.iter().map(|l| {
+        let ids: Vec<usize> = l.iter().map(|e| edge_id(*e, size)).collect();
+        let body = &ids[..ids.len().saturating_sub(1)];
+        let rot = |v: Vec<usize>| -> Vec<usize> { if v.is_empty() { return v; } let m = (0..v.len()).min_by_key(|i| v[*i]).unwrap(); let mut r = v[m..].to_vec(); r.extend_from_slice(&v[..m]); r };
+        let a = rot(body.to_vec());
+        let mut rev = body.to_vec(); rev.reverse();
+        let b = rot(rev);
+        if a.get(1) <= b.get(1) { a } else { b }
+    }).collect();
+    out.sort();
+    out
+}
+
+type Obs = (Cells, Vec<Vec<usize>>);
+
+fn observe<C: SampledContour>(c: &C, size: ContourSize) -> Option<Obs> { scan_trace(c).ok().map(|(cl, lp)| (cl, canon_loops(&lp, size))) }
+
+/// one contour of one kind: the oracle's verdict, then (when `reference` is given) equality with what the bool contour gave
+fn run_kind(kind: &str, desc: &str, detail: String, nontrivial: bool, stats: &mut Stats, reference: Option<&mut Option<Obs>>,
+            f: &dyn Fn() -> (Option<(String, String)>, Option<Obs>)) {
+    let repr = format!("{} {} {}", kind, desc, detail);
+    stats.case(&repr, nontrivial);
+    stats.count(&format!("kind.{}", kind));
+    let pre = if kind == "bool" { String::new() } else { format!("{}.", kind) };
+    match catch_unwind(AssertUnwindSafe(|| f())) {
+        Ok((None, Some(res))) => {
+            if let Some(reference) = reference {
+                match reference {
+                    None => *reference = Some(res),
+                    Some(r) => if *r != res { stats.fail("C17", &format!("{}differs_from_bool", pre), &format!("{} got {:?} bool gave {:?}", repr, res, r)); }
+                }
+            }
+        }
+        Ok((None, None)) => {}
+        Ok((Some((key, d)), _)) => stats.fail("C17", &format!("{}{}", pre, key), &format!("{} {}", repr, d)),
+        Err(_) => stats.fail("C17", &format!("{}panic", pre), &repr),
+    }
+}
+
+/// all kinds of contour for one bitmap against the brute-force oracle, and against each other
+fn search_bitmap(rng: &mut Rng, bm: &[bool], w: usize, h: usize, nontrivial: bool, stats: &mut Stats, all_kinds: bool) {
+    let size = ContourSize(w, h);
+    let desc = format!("{}x{} {}", w, h, bits(bm));
+    let mut reference: Option<Obs> = None;
+    // bool
+    {
+        let c = BoolSampledContour(size, bm.to_vec());
+        run_kind("bool", &desc, String::new(), nontrivial, stats, Some(&mut reference), &|| (check(&c, bm, w, h), observe(&c, size)));
+    }
+    if !all_kinds { return; }
+    // u8
+    {
+        let (v, s) = u8_samples(bm, rng.i(2) * (1 + rng.i(1000)));
+        let c = U8SampledContour(size, v);
+        run_kind("u8", &desc, s, nontrivial, stats, Some(&mut reference), &|| (check(&c, bm, w, h), observe(&c, size)));
+    }
+    // fractional intercepts
+    for st in [None, Some(random_style(rng))] {
+        let rows = frac_rows(rng, bm, w, h, st);
+        for r in &rows { classify_row(r, "frac", stats); }
+        let kind = if st.is_none() { "frac_max_split" } else { "frac" };
+        if sample_rows(&rows, w) != bm { stats.fail("C17", "generator", &format!("{} rows {} do not sample to the bitmap (harness defect)", desc, rows_desc(&rows))); continue; }
+        let c = FracContour(size, rows);
+        run_kind(kind, &desc, rows_desc(&c.1), nontrivial, stats, Some(&mut reference), &|| {
+            if let Some(r) = check_rounding(&c, bm, w, h) { return (Some(r), None); }
+            (check(&c, bm, w, h), observe(&c, size)) });
+    }
+    // scaled wrapper: the bitmap its own intercepts sample to is the reference
+    if let Some((c, scale, off)) = scaled_of(rng, bm, w, h) {
+        let rows = rows_of(&c);
+        let ContourSize(sw, sh) = c.contour_size();
+        let sbm = sample_rows(&rows, sw);
+        for r in &rows { classify_row(r, "scaled", stats); }
+        run_kind("scaled", &desc, format!("scale {} offset {:?} rows {}", scale, off, rows_desc(&rows)), nontrivial, stats, None, &|| {
+            let lib_bm: Vec<bool> = (0..sw * sh).map(|i| contour_point_is_inside(&c, ContourPosition(i % sw, i / sw))).collect();
+            if lib_bm != sbm { return (Some(("point_is_inside".into(), format!("contour_point_is_inside {} sampled {}", bits(&lib_bm), bits(&sbm)))), None); }
+            (check(&c, &sbm, sw, sh), None) });
+    }
 }
 
 pub fn search(seed: u64, n: u64) {
     let mut rng = Rng(seed ^ 0x5EA2C17);
     let mut stats = Stats::new();
     let thorough = n >= 100000;
-    let mut run = |bm: &[bool], w: usize, h: usize, stats: &mut Stats, nontrivial: bool| {
-        let desc = format!("{}x{} {}", w, h, bits(bm));
-        stats.case(&desc, nontrivial);
-        let bmv = bm.to_vec();
-        match std::panic::catch_unwind(move || check(&bmv, w, h)) {
-            Ok(None) => {}
-            Ok(Some((key, d))) => stats.fail("C17", &key, &format!("{} {}", desc, d)),
-            Err(_) => stats.fail("C17", "panic", &desc),
-        }
-    };
     std::panic::set_hook(Box::new(|_| {}));
     let mut szs = sizes(thorough);
     if !thorough { szs.push((4, 4)); }
@@ -155,13 +491,13 @@ pub fn search(seed: u64, n: u64) {
         let nbits = w * h;
         for b in 0u64..(1u64 << nbits) {
             let bm: Vec<bool> = (0..nbits).map(|i| (b >> i) & 1 == 1).collect();
-            run(&bm, w, h, &mut stats, b != 0 && b + 1 != (1u64 << nbits));
+            search_bitmap(&mut rng, &bm, w, h, b != 0 && b + 1 != (1u64 << nbits), &mut stats, nbits <= 16 || b % 16 == seed % 16);
         }
         stats.count(&format!("exhaustive.{}x{}", w, h));
     }
     for _ in 0..(n / 20) {
         let (bm, w, h, name) = random_bitmap(&mut rng);
-        run(&bm, w, h, &mut stats, name != "full" && name != "empty");
+        search_bitmap(&mut rng, &bm, w, h, name != "full" && name != "empty", &mut stats, true);
         stats.count(&format!("random.{}", name));
     }
     stats.print("C17", "search");
